@@ -49,7 +49,6 @@ func tail(s string, n int) string {
 	return s
 }
 
-
 // c07KillReplica runs the recorded history in a chain of OS processes on one goleveldb directory: each process continues
 // from whatever the database holds and kills itself with SIGKILL at the next planned crash point (before FinalizeBlock,
 // between FinalizeBlock and Commit, a few hundred microseconds into Commit, right after Commit); the last one runs to the
